@@ -52,6 +52,7 @@ def jobs_for(tier, rng, nd):
             if k % 2 == 0 or nd > 1:
                 # a problem-supplied starting policy is computed state by state: it too must not depend on the layout
                 m["render"]["has_init_policy"] = True
+                m["render"]["init_policy_on_instance"] = rng.random() < 0.4
                 m["pol0"] = [rng.randrange(m["na"]) for _ in range(ns)]
         jobs.append(job)
     # at scale: more than 1024 states (default max_batch_size) spread over the devices
